@@ -37,6 +37,10 @@ var orderFields = []orderField{
 	{"kq + '-x'", "kx", "str"},
 	{"vq + vq", "vv", "str"},
 	{"nq * 2 + 1", "n2", "num"},
+	// texts built AROUND the key: a constant suffix does not preserve the key order when one key is a prefix of another
+	{"key + ':id'", "ksfx", "str"},
+	{"'<' + key + '>'", "kbr", "str"},
+	{"'id:' + key", "kpfx", "str"},
 }
 
 func orderStore(r *Rand, size int) []KV {
